@@ -26,7 +26,7 @@ func init() { register(c13{}) }
 func (c13) ID() string    { return "C13" }
 func (c13) Level() string { return "exploration" }
 func (c13) Rule() string {
-	return "race-detector build: for packets of every type (rich ones: CONNECT with will and many properties, PUBLISH with all properties, SUBSCRIBE with identifier and several filters, ...; one case in eight a large one whose frame has 20 KiB .. 1 MiB; one in six a zero value of the exported type, untouched or filled by setters) N in {2,8,32} goroutines are released together and each performs a random sequence of WriteTo, String, Dump, WellFormed and full accessor sweeps on the SHARED packet, with no synchronisation between release and join (no atomics, channels or locks), random runtime.Gosched() in the harness and GOMAXPROCS in {2,4,16}; the will *Publish is also used directly while the CONNECT holding it is encoded; ReadPacket on distinct streams (complete ones, whose result is compared with the sequential one, and ones cut inside a packet), NewX() constructors and decodes run alongside (shared package-level data). Verdict: zero 'WARNING: DATA RACE' blocks in the GORACE log; every concurrent WriteTo equals the sequential encoding. distinct = (packet type, operation a, operation b) pairs whose execution intervals overlapped on the same packet (computed after the join from goroutine-local timestamp logs); non-trivial = every such pair"
+	return "race-detector build: for packets of every type (rich ones: CONNECT with will and many properties, PUBLISH with all properties, SUBSCRIBE with identifier and several filters, ...; one case in eight a large one whose frame has 20 KiB .. 1 MiB; one in six a zero value of the exported type, untouched or filled by setters, one in six a packet that came off the wire; in half of the cases the first read-only operation ever made on the shared packet happens in the concurrent part) N in {2,8,32} goroutines are released together and each performs a random sequence of WriteTo, String, Dump, WellFormed and full accessor sweeps on the SHARED packet, with no synchronisation between release and join (no atomics, channels or locks), random runtime.Gosched() in the harness and GOMAXPROCS in {2,4,16}; the will *Publish is also used directly while the CONNECT holding it is encoded; ReadPacket on distinct streams (complete ones, whose result is compared with the sequential one, and ones cut inside a packet), NewX() constructors and decodes run alongside (shared package-level data). Verdict: zero 'WARNING: DATA RACE' blocks in the GORACE log; every concurrent WriteTo equals the sequential encoding. distinct = (packet type, operation a, operation b) pairs whose execution intervals overlapped on the same packet (computed after the join from goroutine-local timestamp logs); non-trivial = every such pair"
 }
 func (c13) Assumptions() []string {
 	return []string{"the race detector is a happens-before detector with bounded shadow history: silence on the runs made is evidence, not proof", "the harness adds no happens-before edges between release and join (goroutine-local logs, merged after the join)"}
@@ -116,6 +116,26 @@ func (c13) Run(c *run.Ctx, phase, idx int) {
 			c.Count("shared-packet-origin", "zero-value", 1)
 		}
 	}
+	if idx%6 == 2 {
+		// a packet that came off the wire and was never touched since
+		apiBuild := build
+		build = func() (mq.Packet, error) {
+			src, err := apiBuild()
+			if err != nil {
+				return nil, err
+			}
+			b, _, werr, pan := libEncode(src)
+			if werr != nil || pan != nil {
+				return nil, fmt.Errorf("encode for decoding failed")
+			}
+			res := libRead(b)
+			if !res.Accepted() {
+				return nil, fmt.Errorf("own output not read back")
+			}
+			return res.Pkt, nil
+		}
+		c.Count("shared-packet-origin", "decoded", 1)
+	}
 	pkt, err := build()
 	if err != nil {
 		c.Count("skipped", "no-setter", 1)
@@ -127,7 +147,7 @@ func (c13) Run(c *run.Ctx, phase, idx int) {
 	// read-only operation on the shared packet happens in the concurrent
 	// part: lazily completed state shows up as a race there
 	first := pkt
-	if idx%6 == 4 || idx%3 == 1 {
+	if idx%6 == 4 || idx%6 == 2 || idx%3 == 1 {
 		if twin, terr := build(); terr == nil {
 			first = twin
 			c.Count("shared-packet-origin", "first-use-is-concurrent", 1)
